@@ -88,6 +88,33 @@ pub fn trav(rest: &str) -> String {
                 prefix, at, alone.len(), out.len() - prefix.min(out.len()));
         }
     }
+    // the same module with a string operand on every instruction (operands of different lengths): C15 stated directly on the
+    // implementation — header words ++ the stand-alone assembly of each instruction visited by all_inst_iter — for `assemble()` and for
+    // `assemble_into` after prefixes that put the instructions around the 65536-word mark of the output
+    {
+        let mut m2 = m.clone();
+        for i in m2.all_inst_iter_mut() {
+            let k = i.result_id.unwrap_or(0);
+            i.operands.push(rspirv::dr::Operand::LiteralString("s".repeat((k % 9) as usize)));
+        }
+        let mut want: Vec<u32> = match &m2.header {
+            Some(h) => vec![h.magic_number, h.version, h.generator, h.bound, h.reserved_word],
+            None => vec![],
+        };
+        for i in m2.all_inst_iter() {
+            want.extend(i.assemble());
+        }
+        if m2.assemble() != want {
+            return "string-variant: assemble() is not the header followed by the assembly of each visited instruction".to_string();
+        }
+        for prefix in [65529usize, 65535, 70000] {
+            let mut out = vec![0xdead_beef_u32; prefix];
+            m2.assemble_into(&mut out);
+            if out[..prefix].iter().any(|w| *w != 0xdead_beef) || out[prefix..] != want[..] {
+                return format!("string-variant: assemble_into after {} words is not the header followed by the assembly of each visited instruction", prefix);
+            }
+        }
+    }
     let words: Vec<String> = alone.iter().map(|w| w.to_string()).collect();
     format!(
         "ok g:{} gm:{} a:{} am:{} f:{} fm:{} asm:{}",
